@@ -213,7 +213,9 @@ def run_property(pid, items, bounded=(), tier='quick', seed=0, level='proof', tr
             first = {'args': None, 'violation': {'kind': 'harness-error', 'error': repr(e), 'trace': traceback.format_exc()[-1200:]}}
         native_stats.append({'contract': it.cid, 'cases': cnt, 'violations': 0 if first is None else 1,
                              'stands_in_for_proof': bool(it.tool_limit)})
-        if first is not None:
+        if first is not None and first['violation'].get('kind') == 'harness-error':
+            checker_errors.append('runtime-contract harness of %s failed: %s\n%s' % (it.cid, first['violation']['error'], first['violation'].get('trace', '')))
+        elif first is not None:
             native_viol[it.cid] = first
 
     def classify(what, cid, obligation, witness, detail):
